@@ -2,9 +2,9 @@ CONSTANTS
  B = 3
  C = 2
  UL = 2
- Guard = TRUE
+ Guard = FALSE
  MaxLen = 3
 SPECIFICATION Spec
 INVARIANTS TypeOK NoEndlessRepeat
-PROPERTY Terminates
+CONSTRAINT Bounded
 CHECK_DEADLOCK FALSE
